@@ -41,7 +41,8 @@ TIERS = {
     "thorough": {"workers": 16, "random": 1500, "targeted": 4, "pytest": False, "hard_timeout": 3300},
 }
 HARNESS_FAULT_DISCARDS = ["script_step_without_target", "script_op_not_applicable", "script_mutation_not_applicable"]
-MIN = {"quick": {"C19.events": 5000, "C19.twin_comparisons": 5000, "C19.frame_checks": 5000, "C19.mutations": 150},
+MIN = {"quick": {"C19.events": 5000, "C19.twin_comparisons": 5000, "C19.frame_checks": 5000, "C19.mutations": 150,
+                 "C19.returned_objects_mutated": 100},
        "thorough": {"C19.events": 100000, "C19.twin_comparisons": 100000}}
 
 
@@ -460,6 +461,8 @@ def run_history(c, stats):
             ok, ans = call(mutate, entry["kind"], entry["obj"], mut)
             entry["muts"].append(mut)
             core.LOG.count("C19.mutations")
+            if not entry.get("base"):
+                core.LOG.count("C19.returned_objects_mutated")
             ev = {"step": step, "target": ti, "mutation": mut, "ok": ok}
             changed_allowed = {ti}
         else:
